@@ -59,6 +59,23 @@ def run(prog, rep, tier):
                 for c in toks:
                     if c.startswith("call:"):
                         d["calls"].add(c[5:])
+    # loop spelling of the same filter: `for a in attrs { match a.code() { 5 | 9 | 10 | 26 => {} .. => out.push(..) } }` — a code is
+    # dropped when its case leads back to the loop head without a push of an Attribute
+    lps = loops(fv)
+    for bb, br in brs.items():
+        if br.ty != "u8" or not any(c.endswith("Attribute::code") for c in expr_calls(br.expr)):
+            continue
+        ro = role_of(fv, bb, brs)
+        inner = [(h, body) for h, body, backs in lps if bb in body]
+        if ro is None or not inner:
+            continue
+        h, body = min(inner, key=lambda x: len(x[1]))
+        d = per.setdefault(ro, {"calls": set(), "codes": set(), "toks": set()})
+        for v, tgt in br.cases:
+            region = fv._reach_from(tgt, {h}, set()) & body
+            pushes = [b for b in region if fv.blocks[b]["t"]["t"] == "call" and any(n.endswith("::push") for n in callee_names(fv.blocks[b]["t"])) and "Attribute" in fv.blocks[b]["t"]["f"].get("ga", "")]
+            if not pushes:
+                d["codes"].add(v)
     groups = {frozenset({"RsClient"}): "RsClient", frozenset({"Ibgp", "IbgpRrClient"}): "Ibgp", frozenset({"ConfedEbgp"}): "ConfedEbgp", frozenset({"Ebgp"}): "Ebgp"}
     seen_roles = set()
     for ro in per:
@@ -184,14 +201,19 @@ def _consumers(fv, local):
 
 
 def _count_calls_in_arm(prog, fv, role, suffix, brs):
+    """(sites applied per attribute: in a map closure or inside a loop of the arm, sites in the arm's straight-line code)"""
     in_map = in_body = 0
+    lps = loops(fv)
     for b in sorted(fv.live):
         ro = role_of(fv, b, brs)
         if ro != frozenset(role):
             continue
         t = fv.blocks[b]["t"]
         if t["t"] == "call" and any(n.endswith(suffix) for n in callee_names(t)):
-            in_body += 1
+            if any(b in body and role_of(fv, h, brs) == frozenset(role) for h, body, backs in lps):
+                in_map += 1
+            else:
+                in_body += 1
         for s in fv.blocks[b]["s"]:
             rv = s.get("rv")
             if rv and rv["r"] == "agg" and rv.get("k") == "closure":
@@ -436,5 +458,38 @@ def check_opaque(prog, fv, brs, r):
                         r.ok("opaque and non-transitive -> dropped")
                     else:
                         r.fail(fv.name, "opaque-drop", "unknown non-transitive attributes are not dropped", cfv.loc())
+    if not found:
+        # loop spelling in the body itself
+        sites = fv.calls(re.compile(r".*Attribute::with_partial_bit"))
+        lps = loops(fv)
+        for bb, tt in sites:
+            found = True
+            if role_of(fv, bb, brs) is not None:
+                r.fail(fv.name, "opaque-role-specific", "the unknown-attribute policy is applied for some roles only", fv.loc(bb))
+                continue
+            gl = flat_guards(fv, bb, brs)
+            g = [(show(x, 60), l) for x, l, h in gl]
+            if any("is_opaque" in a and l == {"true"} for a, l in g) and any("is_transitive" in a and l == {"true"} for a, l in g):
+                r.ok("opaque and transitive -> forwarded with Partial")
+            else:
+                r.fail(fv.name, "opaque-partial", "unknown transitive attributes are not forwarded with the Partial bit", fv.loc(bb))
+            # the other outcome of the is_transitive test (still under is_opaque) reaches the loop head without a push
+            okd = False
+            for b2, br in brs.items():
+                if br.expr[0] == "call" and br.expr[1].endswith("Attribute::is_transitive") and fv.dominates(b2, bb):
+                    from ..cfg import bool_edges
+                    inner = [(h, body) for h, body, backs in lps if b2 in body]
+                    if not inner:
+                        continue
+                    h, body = min(inner, key=lambda x: len(x[1]))
+                    for e_ in bool_edges(fv, br, False):
+                        tgt = e_[1]
+                        region = (fv._reach_from(tgt, {h}, set()) & body) | {tgt}
+                        if not any(fv.blocks[b]["t"]["t"] == "call" and any(n.endswith("::push") for n in callee_names(fv.blocks[b]["t"])) for b in region):
+                            okd = True
+            if okd:
+                r.ok("opaque and non-transitive -> dropped")
+            else:
+                r.fail(fv.name, "opaque-drop", "unknown non-transitive attributes are not dropped", fv.loc(bb))
     if not found:
         r.fail(fv.name, "no-opaque-policy", "export_attrs has no unknown-attribute (Partial bit) step", fv.loc())
